@@ -602,7 +602,10 @@ read_dns_withq(int dns_fd, int tun_fd, char *buf, int buflen, struct query *q)
 			int thispartlen, dataspace, datanew;
 
 			while (1) {
-				thispartlen = strlen(buf);
+				/* buf is not terminated when the record type of the
+				   answer differs from the type of the question */
+				char *end = memchr(buf, '\0', buftotal);
+				thispartlen = end ? (int) (end - buf) : buftotal;
 				thispartlen = MIN(thispartlen, buftotal-bufoffset);
 				dataspace = sizeof(data) - dataoffset;
 				if (thispartlen <= 0 || dataspace <= 0)
